@@ -9,4 +9,4 @@ D=$(mktemp -d /dev/shm/pcbmut.XXXXXX)
 trap 'rm -rf "$D"' EXIT
 rsync -a --exclude .git --exclude __pycache__ --exclude tests --exclude docs /repo/ "$D/"
 ( cd "$D" && patch -p1 -s < "$PATCH" ) || { echo "patch failed"; exit 3; }
-cd /verif && VERIF_REPO="$D" timeout 900 /venv/bin/python "$CHECK" --no-evidence "$@"
+cd /verif && VERIF_REPO="$D" VERIF_REPLAY_DIR="$D/replays" VERIF_MAX_REPORT=${VERIF_MAX_REPORT:-6} timeout 1200 /venv/bin/python "$CHECK" --no-evidence "$@"
